@@ -3,7 +3,7 @@ import UgoVerif.Proofs.ExecAtStartsOps
   Control-flow integrity, part 4: CLOSURE, GETINDEX (a loop that can throw), CALL / CALLNAME
   (`xOpCallCompiled` incl. the self tail call, builtin calls), and the dispatch of all 44 opcodes.
 -/
-namespace UgoVerif.VM
+namespace UgoVerif.VM.Cfi
 open UgoVerif UgoVerif.Go
 open UgoVerif.Compile (Walk Bd readBE opWidth)
 
@@ -641,4 +641,4 @@ theorem tq_dispatch (F : FloatOps) (hw : WfCode code) (hbd : Bd code.insts p) (b
   exact xs_execUnknown _
 
 end
-end UgoVerif.VM
+end UgoVerif.VM.Cfi
